@@ -20,17 +20,17 @@ CHECKS = {
          "DESIGN.md §3 C02"),
  "C17": (True, "exploration",
          "property-based testing (rapid) of snapshot/restore histories with a whole-file dump-equality oracle, plus generated concurrent reader/writer/restore workloads under the race detector with a single-generation invariant",
-         "Sequential cases split a generated history at a drawn point, snapshot (three ways), continue, restore (two ways) and require: dump after restore == dump at snapshot time modulo the two markers, stores show the model of that time, GetSnapshotId equals the returned id, every restore listener fires once (independently of a slow one), the first timeline request gets a fresh id exactly once (also when two requests overlap, and when it only comes after a second snapshot / restore cycle), a snapshot taken from a read transaction shows what that transaction sees although a write committed meanwhile, readers that deliver data together with EOF restore completely, and the post-snapshot transactions replayed on the restored database have the same outcomes. Concurrent cases run readers that verify one generation across entities, indexes and queries inside each read transaction while a writer bumps generations and restores happen; built with -race.",
+         "Sequential cases split a generated history at a drawn point, snapshot (three ways), continue, restore (two ways) and require: dump after restore == dump at snapshot time modulo the two markers, stores show the model of that time, GetSnapshotId equals the returned id, every restore listener fires once (independently of a slow one), the first timeline request gets a fresh id exactly once (also when two requests overlap, and when it only comes after a second snapshot / restore cycle), a snapshot taken from a read transaction shows what that transaction sees although a write committed meanwhile, readers that deliver data together with EOF restore completely, a snapshot streamed to a slow receiver while a writer commits is one committed generation, a restore listener still busy with the previous restore is notified again, and the post-snapshot transactions replayed on the restored database have the same outcomes. Concurrent cases run readers that verify one generation across entities, indexes and queries inside each read transaction while a writer bumps generations and restores happen; built with -race.",
          "Interleavings are sampled by the Go scheduler. Snapshots are never taken concurrently with a restore (possible recursive-read-lock deadlock is a liveness matter outside this check).",
          "DESIGN.md §3 C17"),
  "C18": (True, "exploration",
          "generated concurrent workloads (rapid) under the Go race detector; oracle = version-tagged snapshot invariant + reference query answers per version + any race report is a violation",
-         "Each workload runs 2-8 readers, 0-4 helper-hammering goroutines and one writer whose every transaction moves the whole database to the next version; inside each read transaction entities, unique index, set index, both link sides and drawn queries (parsed concurrently) must all show the same version and equal the serial answer for it; helper results (error classification, parse, symbol resolution, public-symbol validation, failing read transactions, failing batched transactions that must leave nothing visible) are checked; query results held after their read transaction must not change; no read transaction may be left open at the end; the binary is built with -race.",
+         "Each workload runs 2-8 readers, 0-4 helper-hammering goroutines and one writer whose every transaction moves the whole database to the next version; inside each read transaction entities, unique index, set index, both link sides and drawn queries (parsed concurrently) must all show the same version and equal the serial answer for it; helper results (error classification, parse, symbol resolution, public-symbol validation, failing read transactions, failing batched transactions that must leave nothing visible) are checked; query results held after their read transaction must not change; paging set on a query parsed from the empty filter stays private to the request; no read transaction may be left open at the end; the binary is built with -race.",
          "Interleavings are sampled, not enumerated; a race needing a specific preemption point can be missed.",
          "DESIGN.md §3 C18"),
  "C19": (True, "exploration",
          "property-based differential testing (rapid): the same generated query is answered by objectz.ObjectStore and by a bolt store holding the same values",
-         "Literal differential the property states: ids, order and count (or error/no error) must agree for every generated collection x predicate over non-set symbols x sort x skip/limit, including = null / != null, negative skip, skip without limit, limit none, negative limits, limit 0, skip past the end, the zero time, up to 7 sort keys, and pairs of queries on one store instance that differ only in the letter case of a string literal. The object store is iterated in reverse insertion order.",
+         "Literal differential the property states: ids, order and count (or error/no error) must agree for every generated collection x predicate over non-set symbols x sort x skip/limit, including = null / != null, negative skip, skip without limit, limit none, negative limits, limit 0, skip past the end, the zero time, up to 7 sort keys, negative zero, pairs of queries on one store instance that differ only in the letter case of a string literal, and (an eighth of the cases) the same queries issued from four goroutines at once. The object store is iterated in reverse insertion order.",
          "Trusts the bolt store as the reference (its own exactness is C01/C02).",
          "DESIGN.md §3 C19"),
  "C20": (True, "exploration",
@@ -40,17 +40,17 @@ CHECKS = {
          "DESIGN.md §3 C20"),
  "C03": (True, "exploration",
          "stateful property-based testing (rapid, histories generated as data with a model-guided generator): in-memory model of unique/set indexes; invariant = index buckets equal model-derived state after every transaction; failed transactions leave the dump unchanged",
-         "Generated create/update/patch/delete histories (accepted and rejected operations, several per transaction, caller aborts, Db.Batch, system contexts, hostile values; base paths 1-4 segments deep, keyed symbols, half of the stores with a unique index over an int64 field, a third with an extended and an indexed child store) are executed against the real store and a model; after every transaction the unique indexes (nullable and not) and the set index are compared bucket by bucket and through ReadIndex/SetReadIndex with the model, every entity is re-read, and each rejection must be of the predicted kind and leave the database dump identical.",
+         "Generated create/update/patch/delete histories (accepted and rejected operations, several per transaction, caller aborts, Db.Batch, system contexts, the last operation issued from a pre-commit action, hostile values; base paths 1-4 segments deep, keyed symbols, half of the stores with a unique index over an int64 field, a third with an extended and an indexed child store) are executed against the real store and a model; after every transaction the unique indexes (nullable and not) and the set index are compared bucket by bucket and through ReadIndex/SetReadIndex with the model, every entity is re-read, and each rejection must be of the predicted kind and leave the database dump identical.",
          "Trusts the model (kit/world.go) and bbolt's rollback. 'Changes nothing' is asserted per transaction.",
          "DESIGN.md §3 C03"),
  "C04": (True, "exploration",
          "stateful property-based testing (rapid): model of references over five fk wirings, a self reference and references to a child store, hostile id universe; invariants = exact back-reference sets and exact survivor sets after delete",
-         "Histories over a target store (with a child store), and nine referrer stores (nullable / non-null fk index, fk constraint with cascade none / cascade delete, cascade-delete fk index, self-referencing fk index, and three wirings whose target is the child store), each history concentrating on 2-4 of them, with explicit re-parenting, stale-target, swap-referrer and cascade-burst transactions, a child store over one referrer store, ordinary and system contexts, with ids containing quotes, backslashes, filter keywords, blanks, brackets, newlines, tabs and a control byte. The model predicts missing-target and null rejections, reference-exists refusals and the exact set of entities removed by a cascade; entities, back-references and (on failure) the whole dump are compared after every transaction.",
+         "Histories over a target store (with a child store), and nine referrer stores (nullable / non-null fk index, fk constraint with cascade none / cascade delete, cascade-delete fk index, self-referencing fk index, and three wirings whose target is the child store), each history concentrating on 2-4 of them, with explicit re-parenting, stale-target, swap-referrer and cascade-burst transactions, a child store over one referrer store, a self-referencing cascade store with three-level hierarchies, an extended variant of the child-store target, ordinary and system contexts, with ids containing quotes, backslashes, filter keywords, blanks, brackets, newlines, tabs and a control byte. The model predicts missing-target and null rejections, reference-exists refusals and the exact set of entities removed by a cascade; entities, back-references and (on failure) the whole dump are compared after every transaction.",
          "Self-reference-only deletes and cascade cycles are skipped as unspecified. Error classes via exported Is* helpers only.",
          "DESIGN.md §3 C04"),
  "C05": (True, "exploration",
          "stateful property-based testing (rapid) with an adjacency/count model read from both sides, plus bounded-exhaustive enumeration of (current set, requested list) pairs for SetLinks",
-         "Histories over three stores and a child store (five collections: plain and ref-counted, one declared on the child store, two whose remote symbols share a name; ids that are prefixes of other ids) of all link operations issued from either side, link sets persisted together with the entity (PersistContext.SetLinkedIds on create / update / patch through the store or the child store), grow-then-shrink transactions, entity creates/deletes and links to missing entities; after every transaction GetLinks, IterateLinks, IsLinked, GetLinkCount(s) and the raw buckets of both sides must equal the model and each other. SetLinks is additionally enumerated over every current set x every requested list (with duplicates, any order) of a small universe.",
+         "Histories over three stores and a child store (five collections: plain and ref-counted, one declared on the child store, two whose remote symbols share a name, one store with ref-counted collections only; ids that are prefixes of other ids, a 64-byte id, an id shared by several stores; the child store extended in a third of the cases) of all link operations issued from either side, link sets persisted together with the entity (PersistContext.SetLinkedIds on create / update / patch through the store or the child store), grow-then-shrink transactions, entity creates/deletes and links to missing entities; after every transaction GetLinks, IterateLinks, IsLinked, GetLinkCount(s) and the raw buckets of both sides must equal the model and each other. SetLinks is additionally enumerated over every current set x every requested list (with duplicates, any order) of a small universe.",
          "Negative counts not generated. Trusts the model.",
          "DESIGN.md §3 C05"),
  "C06": (True, "exploration",
@@ -60,7 +60,7 @@ CHECKS = {
          "DESIGN.md §3 C06"),
  "C13": (True, "exploration",
          "property-based testing (rapid) with a write-transaction / read-transaction round-trip oracle, a field-checker frame oracle (incl. overwrites of lists, maps and string lists, mapped and nil checkers) and codec round-trip + injectivity; native go fuzzing of the codec in the thorough tier",
-         "Generated values of every supported type (boundary and random, arbitrary byte strings, float bit patterns incl. NaN payloads, times in any zone, nulls written three ways, string lists with duplicates, maps/lists nested up to 4 deep) are written in one transaction and read back in a later one through the typed getters; field-checker cases write a baseline and then different values under a drawn checker subset through TypedBucket and PersistContext setters and require exactly the selected fields to change; compound keys are round-tripped and checked for injectivity against random and near-miss lists; unsupported or unstorable values, at the top level or below lists and maps, must return an error without panicking.",
+         "Generated values of every supported type (boundary and random, arbitrary byte strings, float bit patterns incl. NaN payloads, times in any zone, nulls written three ways, string lists with duplicates, maps/lists nested up to 4 deep) are written in one transaction and read back in a later one through the typed getters; field-checker cases write a baseline and then different values under a drawn checker subset through TypedBucket and PersistContext setters and require exactly the selected fields to change; values are also looked at before they are written and read back inside the writing transaction through the same bucket object; compound keys are round-tripped and checked for injectivity against random and near-miss lists; unsupported or unstorable values, at the top level or below lists and maps, must return an error without panicking.",
          "Map keys are non-empty and differ from the reserved list-size marker. Sampling; no exhaustive sub-space.",
          "DESIGN.md §3 C13"),
  "C14": (True, "exploration",
@@ -75,16 +75,16 @@ CHECKS = {
          "DESIGN.md §3 C15"),
  "C16": (True, "exploration",
          "stateful property-based testing (rapid): model with the system flag fixed at creation, transactions in ordinary or system contexts",
-         "Every generated operation's acceptance is predicted from (entity flag at creation, context kind); refusals must leave the dump unchanged, all other operations must succeed, and the stored flag of every entity must equal its creation flag after every transaction, including after updates that try to flip it from either context.",
+         "Every generated operation's acceptance is predicted from (entity flag at creation, context kind); refusals must leave the dump unchanged, all other operations must succeed, and the stored flag of every entity must equal its creation flag after every transaction, including after updates that try to flip it from either context. System contexts are derived inside the transaction or handed to Db.Update / Db.Batch from outside; bulk deletes by a non-unique field mix system and ordinary entities.",
          "Trusts the model; single store with the enforcement constraint plus a unique index.",
          "DESIGN.md §3 C16"),
  "C07": (True, "fault_enumeration",
          "property-based generation of transaction bodies (rapid) with exhaustive enumeration of failure kind x failure position x entry point per body; oracle = error reaches the caller, dump before == dump after, no callback after a barrier",
-         "For each generated (database, body) the runner enumerates 25 failure kinds (pre-commit action queued before the transaction is opened, unstorable value nested below a list in a SetMap document or in the tags of a patch, missing link target in a link set persisted with the entity through either store, reference to a missing target that equals the referrer's own id, caller error, duplicate, empty value, missing fk target, two storage refusals, oversized set element inside a field-restricted update, vetoes on create/update/patch/delete incl. parent-store veto for a child op, child-store veto for a routed update and veto on a cascaded delete, pre-commit action errors: first of two, on a derived system context, on an early-derived context) at every position and through Db.Update, a nested Db.Update and Db.Batch; the rejected call and the transaction must return non-nil, the full dump must equal the baseline and no listener of any style, commit action or tx-complete listener may run; the unmodified body must then commit and match the model.",
+         "For each generated (database, body) the runner enumerates 28 failure kinds (vetoes on a bulk delete by filter, also of the not-found type, a cascaded-delete veto through an entity with child data, pre-commit action queued before the transaction is opened, unstorable value nested below a list in a SetMap document or in the tags of a patch, missing link target in a link set persisted with the entity through either store, reference to a missing target that equals the referrer's own id, caller error, duplicate, empty value, missing fk target, two storage refusals, oversized set element inside a field-restricted update, vetoes on create/update/patch/delete incl. parent-store veto for a child op, child-store veto for a routed update and veto on a cascaded delete, pre-commit action errors: first of two, on a derived system context, on an early-derived context) at every position and through Db.Update, a nested Db.Update and Db.Batch; the rejected call and the transaction must return non-nil, the full dump must equal the baseline and no listener of any style, commit action or tx-complete listener may run; the unmodified body must then commit and match the model.",
          "Failure kinds are the ones reachable without a hook below bbolt (no I/O fault injection). Bodies are sampled, kind x position per body is exhaustive.",
          "DESIGN.md §3 C07"),
  "C08": (True, "exploration",
-         "stateful property-based testing (rapid): expected event multiset derived from the model per transaction, compared for equality with the callbacks recorded from every listener registration style (one call per change type and one call naming all types) on the parent store and one or two child stores",
+         "stateful property-based testing (rapid): expected event multiset derived from the model per transaction, compared for equality with the callbacks recorded from every listener registration style (one call per change type, one call naming all types, asynchronous ones per type) on the parent store and one or two child stores",
          "Every transaction of a generated history (committed, aborted, rejected; Update or Batch; operations routed through either store) is followed by a barrier; the multiset of (store, style, change type, id, delivered state) must equal the model-derived one, nothing may fire before the commit handler, commit actions (registered before the transaction, inside it, and through a context derived with UpdateContext) run exactly once iff committed and tx-complete listeners exactly once per committed Db.Update.",
          "Asynchronous callbacks are awaited with bounded polls (5-10 s ceilings); extended-store events for plain parents are not asserted.",
          "DESIGN.md §3 C08"),
@@ -95,17 +95,17 @@ CHECKS = {
          "DESIGN.md §3 C09"),
  "C10": (True, "exploration",
          "property-based testing and fuzzing: grammar sentences with free operand types, token-level mutants, bounded-exhaustive token strings, random runes, foreign-character injections (rapid); native coverage-guided go fuzzing in the thorough tier; oracle = recover-guarded totality + independent rejection rule",
-         "Every generated input is pushed through ast.Parse (bolt and in-memory symbol tables), and every query that parses is evaluated through QueryIds, IterateIds, in-memory EvalBool, ValidateSymbolsArePublic and ObjectStore.QueryEntities over an empty store, all-null rows and a rich dataset, all under recover: a panic, or a result that is neither exactly a query nor exactly an error, is a violation. Independently of the parser, a well-typed sentence with one character that occurs in no lexer rule inserted at a token boundary must be rejected. All token strings of length <= 3 (quick) / <= 4 (thorough) over a 41-token alphabet and a paging matrix (7 predicates x 9 sorts of up to 8 fields x 6 skips x 6 limits) are enumerated; sub-query predicates are drawn over the sub-query's own symbol table; parsed queries are also served from a caller-supplied tree-set cursor.",
+         "Every generated input is pushed through ast.Parse (bolt and in-memory symbol tables), and every query that parses is evaluated through QueryIds, IterateIds, in-memory EvalBool, ValidateSymbolsArePublic and ObjectStore.QueryEntities over an empty store, all-null rows and a rich dataset, all under recover: a panic, or a result that is neither exactly a query nor exactly an error, is a violation. Independently of the parser, a well-typed sentence with one character that occurs in no lexer rule inserted at a token boundary must be rejected. All token strings of length <= 3 (quick) / <= 4 (thorough) over a 41-token alphabet and a paging matrix (7 predicates x 9 sorts of up to 8 fields x 6 skips x 6 limits) are enumerated; sub-query predicates are drawn over the sub-query's own symbol table; filters with 33-70 distinct symbols; parsed queries are also served from a caller-supplied tree-set cursor; a fixed set of texts is parsed from twelve goroutines at once and compared with the serial outcome.",
          "Termination is only observed through the test deadline. The fuzz target caps input length and the number of and/or tokens because ANTLR prediction is exponential on long mixed chains (a performance matter, not claimed).",
          "DESIGN.md §3 C10"),
  "C12": (True, "exploration",
          "bounded-exhaustive enumeration of boolean skeletons plus property-based re-spelling (rapid); oracle = truth table of the skeleton under standard precedence, and metamorphic invariance of QueryIds under re-spelling",
-         "All and/or/not skeletons with up to 4 atoms (5 in the thorough tier) are enumerated in three parenthesisation styles and compared on all 2^n assignments with the skeleton's own value (and over or, chains flat, not (P) = negation). Random skeletons up to 8 atoms are re-spelled with arbitrary whitespace runs in every WS slot, per-letter keyword case and redundant parentheses; a quarter are instantiated with real comparisons over a stored dataset where the re-spelling, the canonical spelling and the skeleton applied to the atoms' own answers must agree.",
+         "All and/or/not skeletons with up to 4 atoms (5 in the thorough tier) are enumerated in three parenthesisation styles, plus mirror pairs (two groupings of the same three atoms under one connective); skeletons of up to three atoms are also evaluated with constant atoms for every assignment and with the parser's debug switch on, and compared on all 2^n assignments with the skeleton's own value (and over or, chains flat, not (P) = negation). Random skeletons up to 8 atoms are re-spelled with arbitrary whitespace runs in every WS slot, per-letter keyword case and redundant parentheses; a quarter are instantiated with real comparisons over a stored dataset where the re-spelling, the canonical spelling and the skeleton applied to the atoms' own answers must agree.",
          "How a bare 'not' binds against and/or is not stated and not asserted (not is always written not (P) and parenthesised as an operand).",
          "DESIGN.md §3 C12"),
  "C11": (True, "exploration",
          "property-based testing (rapid) with a round-trip oracle and an end-to-end query oracle; native go fuzzing of the codec in the thorough tier",
-         "Generated strings over the property's alphabet (biased to adjacent backslash/letter/quote patterns) are quoted, parsed back and used in =, !=, in, not in, contains, not contains queries on a string field and anyOf = / anyOf in / allOf != / anyOf contains queries on a string set, over rows holding the string, near-misses (incl. strings it is a prefix of) and null, and in lists of 10-11 literals where it is the smallest or the greatest element, through the in-memory symbol route and a bolt store; every answer is compared with the set computed directly from the intended string. Sampling, not proof: a defect needing a string outside the alphabet/length bound can be missed.",
+         "Generated strings over the property's alphabet (biased to adjacent backslash/letter/quote patterns) are quoted, parsed back and used in =, !=, in, not in, contains, not contains queries on a string field and anyOf = / anyOf in / allOf != / anyOf contains queries on a string set, over rows holding the string, near-misses (incl. strings it is a prefix of) and null, and in lists of 10-11 literals where it is the smallest or the greatest element, with the parser's debug switch off and on, through the in-memory symbol route and a bolt store; every answer is compared with the set computed directly from the intended string. Sampling, not proof: a defect needing a string outside the alphabet/length bound can be missed.",
          "Trusts the harness's quote() (written from the property statement), the in-memory ast.Symbols implementation and bbolt. Control characters other than LF TAB CR FF are outside the domain.",
          "DESIGN.md §3 C11"),
 }
